@@ -12,6 +12,10 @@ def groups(n, seed):
     for i in range(n):
         ps = family_spec(i, rng)
         pk = gen.random_params(rng, iteration_limit=20)
+        if i % 4 == 1:
+            # objective NaN at some (rejected) trial points: the displayed row really evaluates there
+            ps = ("logdomain", int(rng.integers(0, 2 ** 31)), int(rng.integers(1, 4)), i % 8 == 1)
+            pk["lamb_init"] = float(10.0 ** rng.uniform(-3, -1))
         base = dict(pk, display_interval=1e9, collect_path=False, report_rcond=False)
         runs = [{"prob": ps, "params": base, "run": "A", "twin": "C09", "record_callback": False, "loglevel": "WARNING"}]
         variants = [
